@@ -431,19 +431,65 @@ theorem insert_workflow_exact (g other : DiGraph) (preds : Option (List Nat)) (e
   · intro e
     rw [addEdgesFrom_edges_mem, compose_edges_mem hg ho, or_assoc]
 
-/-- When the connection is refused (`ValueError`), the builder has nevertheless
-    been replaced by the composition: the refusal is not atomic
-    (finding `insert-refused-but-composed`). -/
-theorem insert_workflow_refusal (g other : DiGraph) (preds : Option (List Nat)) (e : Err)
+/-- **insert_workflow_refusal_atomic**: a refused insertion (`ValueError`) leaves
+    the builder exactly as it was (repaired by f697869; before, the builder had
+    already been replaced by the composition). -/
+theorem insert_workflow_refusal_atomic (g other : DiGraph) (preds : Option (List Nat)) (e : Err)
     (hc : connectEdges (insertOuts g preds) other.inputNodes = .error e) :
-    insertWorkflow g other preds = (g.compose other, some e) := by
+    insertWorkflow g other preds = (g, some e) := by
   unfold insertWorkflow
   simp only [hc]
 
-theorem insert_refusal_witness :
+/-- **insert_workflow_full**: the complete contract.  Either the connection is
+    N:M with N ≠ M, N ≠ 1, M ≠ 1 — then `ValueError` and the builder is unchanged —
+    or the insertion is accepted, the result is well formed, its tasks are those of
+    both workflows plus the named predecessors, and its edges are those of both
+    workflows plus exactly the connecting edges of `connect_rule`. -/
+theorem insert_workflow_full (g other : DiGraph) (preds : Option (List Nat)) (hg : WF g) (ho : WF other) :
+    (other.inputNodes.length ≠ (insertOuts g preds).length ∧ other.inputNodes.length ≠ 1 ∧
+        (insertOuts g preds).length ≠ 1 ∧ insertWorkflow g other preds = (g, some .valueError)) ∨
+    (∃ es, connectEdges (insertOuts g preds) other.inputNodes = .ok es ∧
+      (insertWorkflow g other preds).2 = none ∧ WF (insertWorkflow g other preds).1 ∧
+      (∀ x, x ∈ (insertWorkflow g other preds).1.nodes ↔
+        x ∈ g.nodes ∨ x ∈ other.nodes ∨ ∃ e ∈ es, x = e.1 ∨ x = e.2) ∧
+      (∀ e, e ∈ (insertWorkflow g other preds).1.edges ↔ e ∈ g.edges ∨ e ∈ other.edges ∨ e ∈ es)) := by
+  cases hc : connectEdges (insertOuts g preds) other.inputNodes with
+  | ok es => exact Or.inr ⟨es, rfl, insert_workflow_exact g other preds es hg ho hc⟩
+  | error e =>
+    left
+    obtain ⟨r1, r2, r3, r4⟩ := connect_rule (insertOuts g preds) other.inputNodes
+    have h1 : other.inputNodes.length ≠ (insertOuts g preds).length := by
+      intro h; rw [r1 h] at hc; cases hc
+    have h2 : other.inputNodes.length ≠ 1 := by
+      intro h
+      cases hi : other.inputNodes with
+      | nil => simp [hi] at h
+      | cons i rest =>
+        cases rest with
+        | cons _ _ => simp [hi] at h
+        | nil =>
+          have : (insertOuts g preds).length ≠ 1 := by
+            intro h'; apply h1; rw [hi]; simpa using h'.symm
+          rw [r2 i hi this] at hc; cases hc
+    have h3 : (insertOuts g preds).length ≠ 1 := by
+      intro h
+      cases ho' : insertOuts g preds with
+      | nil => simp [ho'] at h
+      | cons o rest =>
+        cases rest with
+        | cons _ _ => simp [ho'] at h
+        | nil => rw [r3 o ho' h2] at hc; cases hc
+    have he : e = .valueError := by
+      have := r4 h1 h2 h3
+      rw [this] at hc; cases hc; rfl
+    subst he
+    exact ⟨h1, h2, h3, insert_workflow_refusal_atomic g other preds _ hc⟩
+
+/-- Non-vacuity of the refusal branch: a 2:3 connection is refused and nothing changes. -/
+theorem insert_refusal_atomic_witness :
     let g : DiGraph := ⟨[0, 1], []⟩
     let other : DiGraph := ⟨[2, 3, 4], []⟩
-    (insertWorkflow g other none).2 = some .valueError ∧ (insertWorkflow g other none).1.nodes = [0, 1, 2, 3, 4] := by
+    insertWorkflow g other none = (g, some .valueError) := by
   decide
 
 /-- **builder_ops_exact (insert_context)**: the result is well formed; listed in
